@@ -291,6 +291,15 @@ pub fn limit_sources(ctx: &Ctx) -> Vec<(String, bool)> {
     v
 }
 
+/// the limit family for the checks of the properties whose subject sits at a limit: loops and jumps whose
+/// distance is the largest the compiler accepts still repeat and leave as the source says (C05); functions
+/// that capture or declare as many variables as are allowed still see each of them (C06)
+pub fn limit_expects(ctx: &Ctx, families: &[&str]) -> Vec<Expect> {
+    let (_, ops_pairs) = opcode_table(ctx);
+    let mut scratch = Report::new();
+    limit_family(ctx, &ops_pairs, &mut scratch).into_iter().filter(|e| families.contains(&e.family)).collect()
+}
+
 fn limit_family(ctx: &Ctx, ops_pairs: &[(String, u8)], report: &mut Report) -> Vec<Expect> {
     let mut out = Vec::new();
     let mut runner = Runner::new(ctx.runner_checked.clone());
